@@ -40,6 +40,16 @@ def _strategy(draw):
     resn = sorted({r["resname"] for mt in spec["moltypes"] for r in mt["residues"]})
     if draw(st.integers(0, 2)) == 0 and len(resn) > 1:
         opts["build_res"] = [draw(st.sampled_from(resn))]
+    if opts.get("build_res") and draw(st.integers(0, 2)) == 0:
+        # a molecule type called like the repeat unit named with -res (a polymer PEO made of OHS-PEO-PEO-OHE)
+        rn = opts["build_res"][0]
+        cands = [mt for mt in spec["moltypes"] if any(r["resname"] == rn for r in mt["residues"])
+                 and any(r["resname"] != rn for r in mt["residues"]) and mt["name"] in {n for n, _ in spec["molecules"]}]
+        if cands and rn not in {mt["name"] for mt in spec["moltypes"]}:
+            mt = draw(st.sampled_from(cands))
+            spec["molecules"] = [[rn if n == mt["name"] else n, c] for n, c in spec["molecules"]]
+            mt["name"] = rn
+            spec["moltype_named_like_residue"] = True
     names = [n for n, _ in spec["molecules"]]
     ignore = None
     if draw(st.integers(0, 2)) == 0 and len(set(names)) > 1:
